@@ -57,11 +57,11 @@ def main():
     chk.bounds["git-kernel"] = "pushd: 3 body kinds, symbolic cwd / target tokens; changed_notebooks: 0..%d stubbed diff entries x 6 path-kind pairs x blob presence x on-disk presence, 2 base ref kinds x 3 remote ref kinds x 3 sub-directory depths x 3 path-filter shapes" % (2 if t == "quick" else 3)
     chk.outside += ["GitPython / git behaviour (which files are reported as changed, renames, staging semantics)",
                     "is_gitref / resolve_diff_args disambiguation against a real repository",
-                    "git filters (apply_possible_filter is stubbed to 'no filter')"]
+                    "git filters beyond one clean filter whose git answers and program are stubbed (the real apply_possible_filter runs)"]
     chk.stubs += ["nbdime.utils.os -> FakeOS (cwd model over tokens)", "nbdime.gitfiles.Repo -> stand-in for git.Repo (only one directory is a repository; the real get_repo walks up to it)",
                   "nbdime.gitfiles.apply_possible_filter -> identity", "nbdime.gitfiles.io -> in-memory files"]
     chk.require_goals(["pushd-body-raises", "pairs-yielded", "non-notebook-skipped", "working-tree", "identical-blobs",
-                       "existing-directory-that-is-also-a-ref", "ref-then-deleted-path", "second-request-after-refs-moved"])
+                       "existing-directory-that-is-also-a-ref", "ref-then-deleted-path", "second-request-after-refs-moved", "clean-filter-and-file-deleted-in-working-tree"])
     return chk.finish()
 
 
